@@ -7,8 +7,8 @@
    exceptions are values. spec_step (Spec/PlainMem.v) is the plain model of the documented
    semantics on the five regions, in_contract the documented argument ranges, wf_mem the
    region sizes and byte-ness. *)
-From PV Require Import Base.Prelude Model.Accessors Spec.PlainMem
-  Proofs.AccessorsBase Proofs.AccessorsSimple Proofs.AccessorsLoops Proofs.C17Proofs Proofs.AccessorsGrid.
+From PV Require Import Base.Prelude Model.Accessors Spec.PlainMem Instances.HoldsC17
+  Proofs.AccessorsBase Proofs.AccessorsSimple Proofs.AccessorsLoops Proofs.C17Proofs Proofs.AccessorsGrid Proofs.HoldsC17Proofs.
 
 (* one call: for EVERY well-formed memory and EVERY in-contract call of any of the 18
    accessors (any id / coordinates / offsets, rows of any number, length and raggedness, any
@@ -113,6 +113,35 @@ Theorem C17_set_rect_cells : forall m g x y rows X Y,
   match grid_at no_transparent rows (X - x) (Y - y) with Some v => v | None => get_cell m g X Y end.
 Proof. exact set_rect_cells. Qed.
 Print Assumptions C17_set_rect_cells.
+
+(* a Map without a Gfx attached (has_gfx = false: "Map must have a Gfx if y > 31"): calls that
+   stay inside rows 0-31 behave exactly as with it; cell accesses to rows 32-63 are refused *)
+Theorem C17_refines_nogfx : forall s o, wf_mem s -> in_contract o = true -> no_gfx_ok o = true ->
+  step_model false s o = Ok (spec_step s o).
+Proof. exact c17_refines_nogfx. Qed.
+Print Assumptions C17_refines_nogfx.
+
+Theorem C17_nogfx_refuses : forall s x y v, 32 <= y ->
+  step_model false s (MapGet x y) = Err AssertionError /\ step_model false s (MapSet x y v) = Err AssertionError.
+Proof. exact c17_nogfx_refuses. Qed.
+Print Assumptions C17_nogfx_refuses.
+
+(* the instance predicate evaluated (extracted) by the monitor on the implementation's real
+   observations: `true` means exactly "did not raise, returned the plain model's value, left
+   the plain model's memory"; and the code's model passes it on every call / history *)
+Theorem C17_monitor_sound : forall s o raised v s', wf_mem s -> in_contract o = true ->
+  (holds_C17 s o raised v s' = true <-> raised = false /\ s' = fst (spec_step s o) /\ v = snd (spec_step s o)).
+Proof. exact holds_C17_sound. Qed.
+Print Assumptions C17_monitor_sound.
+
+Theorem C17_model_holds : forall s o s' v, step_model true s o = Ok (s', v) -> holds_C17 s o false v s' = true.
+Proof. exact model_holds_C17. Qed.
+Print Assumptions C17_model_holds.
+
+Theorem C17_model_holds_seq : forall ops s final vs, run_model true s ops = Ok (final, vs) ->
+  holds_C17_seq s ops (map (fun v => (false, v)) vs) final = true.
+Proof. exact model_holds_C17_seq. Qed.
+Print Assumptions C17_model_holds_seq.
 
 (* non-vacuity: a concrete sprite stored at the bottom right corner, crossing both edges:
    sprite 255 with offsets (5, 6) starts at pixel (125, 126); column 128 and row 128 are
